@@ -442,8 +442,11 @@ func (s *programState) sendAllToAccount(accountLiteral parser.ValueExpr, ovedraf
 
 	balance := s.getCachedBalance(*account, s.CurrentAsset)
 
-	// we sent balance+overdraft
+	// we sent balance+overdraft (never less than zero)
 	sentAmt := new(big.Int).Add(balance, ovedraft)
+	if sentAmt.Sign() < 0 {
+		sentAmt.SetInt64(0)
+	}
 	s.pushSender(*account, sentAmt)
 	return sentAmt, nil
 }
@@ -529,8 +532,12 @@ func (s *programState) trySendingToAccount(accountLiteral parser.ValueExpr, amou
 	} else {
 		balance := s.getCachedBalance(*account, s.CurrentAsset)
 
-		// that's the amount we are allowed to send (balance + overdraft)
+		// that's the amount we are allowed to send (balance + overdraft),
+		// which is zero when the account is already below its overdraft limit
 		safeSendAmt := new(big.Int).Add(balance, overdraft)
+		if safeSendAmt.Sign() < 0 {
+			safeSendAmt.SetInt64(0)
+		}
 		actuallySentAmt = utils.MinBigInt(safeSendAmt, amount)
 	}
 
